@@ -28,6 +28,9 @@ CALLBACKS = [
     ("clear", "function (v, i, a) { L.push(v); a.length = 0; return true; }"),
     ("arrow", "(v, i) => v + '' + i"),
 ]
+THIS_ARGS = ["0", "-0", "''", "false", "null", "undefined", "NaN", "5", "'s'", "true", "[]", "A", "Math"]
+THIS_CB = ("function (v, i) { L.push([i, this === undefined ? 'u' : this === null ? 'null' : this === A ? 'A' : typeof this, typeof this === 'object' || typeof this === 'function' ? '' : String(this), "
+           "typeof this === 'number' ? 1 / this : 0]); return v; }")
 RED_CALLBACKS = [("sum", "function (acc, v, i, a) { L.push([acc, v, i, a === A]); return acc + v; }"), ("arr", "function (acc, v) { return [acc, v]; }")]
 PROBE = ("(function () { var L = []; var T = {t: 1}; var A = %s; var out; try { out = [0, %s]; } catch (e) { out = [1, e && e.name]; } "
          "return [out, A, out[1] === A, L, A.length]; })()")
@@ -43,6 +46,9 @@ def grid(rng):
                     calls.append("A.%s(%s)" % (m, cb))
                     if cn == "log":
                         calls.append("A.%s(%s, T)" % (m, cb))
+                        # every kind of thisArg, the falsy ones included: the callback reports what it was given
+                        for ta in THIS_ARGS:
+                            calls.append("A.%s(%s, %s)" % (m, THIS_CB, ta))
                 calls += ["A.%s()" % m, "A.%s(undefined)" % m, "A.%s(null)" % m, "A.%s(5)" % m]
             elif m in ("reduce", "reduceRight"):
                 for cn, cb in RED_CALLBACKS:
